@@ -41,7 +41,7 @@ prop("C04",
                "by the scheduler's retry, and an unavailable apiserver (model: BindAnswer / BindOutcome / bindFinish, fact "
                "bindEnqueuesReleaseOnlyOnNotFound, counter theorem repeated_bind_counter, corpus repeated-bind.ops); thorough: breadth-first enumeration of all states "
                "reachable within 8 moves over a 17-move alphabet (incl. the begin of a graceful deletion) (2 pod names, any incarnations, 2 addresses)",
-     lean_modules=["Galaxy.Props.C04", "Galaxy.Lemmas.PluginCrash", "Galaxy.Lemmas.PluginReserved"],
+     lean_modules=["Galaxy.Props.C04", "Galaxy.Lemmas.PluginCrash", "Galaxy.Lemmas.PluginReserved", "Galaxy.Lemmas.PluginRanges"],
      factgen=["plugin"],
      drivers=["plugin"],
      trusted=["tools/factgen/cmd/plugin: facts are matched on a NORMALISED trace of each function (normalise.go: value numbering of locals, path conditions as conjunct sets, guard clauses = nested ifs = &&, switch = if-chain, log lines / error texts dropped, Sprintf = concatenation, private helpers followed one level) - renamings, hoisted sub-expressions, named booleans and extracted helpers do not change a fact, a dropped / moved / weakened guard does (unit tests both ways, incl. the harmless patches H05/H07 and three seeded patches); no type checking, no aliasing analysis",
